@@ -28,43 +28,62 @@ def parseRes (r : String) : Option CasRes :=
   | _, _, some v => v.toNat?.map .spur
   | _, _, _ => none
 
-def parseEv (ws : List String) : Option (Nat × Ev) :=
+def acqOf (o : String) : Option Bool :=
+  if o == "acq" || o == "acqrel" || o == "sc" then some true
+  else if o == "rlx" || o == "rel" then some false else none
+def relOf (o : String) : Option Bool :=
+  if o == "rel" || o == "acqrel" || o == "sc" then some true
+  else if o == "rlx" || o == "acq" then some false else none
+
+/-- configuration update of a CAS on location `l` with orderings `succ/fail`: `step` consults `readAcq` /
+`writeAcq` only for a CAS on `state` that creates a guard, and then it is this event's own success ordering -/
+def casUpd (l : Nat) (a : String) : Option (Cfg → Cfg) := do
+  let so ← (a.splitOn "/").head?
+  let acq ← acqOf so
+  pure (fun c => if l == 0 then { c with readAcq := acq, writeAcq := acq } else c)
+
+/-- parse one trace event into (tid, event, configuration update): RMW events carry the ordering the running
+code passed; the update makes `step` judge exactly this event with that ordering -/
+def parseEv (ws : List String) : Option (Nat × Ev × (Cfg → Cfg)) :=
   match ws with
   | [tid, op, a, b, r] => do
     let i ← tid.toNat?
-    if op == "call-read" then pure (i, .call .read)
-    else if op == "call-write" then pure (i, .call .write)
-    else if op == "call-tryread" then pure (i, .call .tryRead)
-    else if op == "call-trywrite" then pure (i, .call .tryWrite)
-    else if op == "acq" then pure (i, .acq)
-    else if op == "rel" then pure (i, .rel)
-    else if op == "tryfail" then pure (i, .tryfail)
-    else if op == "data" then pure (i, .data)
-    else if op == "spur" then pure (i, .spur (r == "eintr"))
+    if op == "call-read" then pure (i, .call .read, id)
+    else if op == "call-write" then pure (i, .call .write, id)
+    else if op == "call-tryread" then pure (i, .call .tryRead, id)
+    else if op == "call-trywrite" then pure (i, .call .tryWrite, id)
+    else if op == "acq" then pure (i, .acq, id)
+    else if op == "rel" then pure (i, .rel, id)
+    else if op == "tryfail" then pure (i, .tryfail, id)
+    else if op == "data" then pure (i, .data, id)
+    else if op == "spur" then pure (i, .spur (r == "eintr"), id)
     else if op.startsWith "casw" then do
       let l ← locOf op "casw"
+      let upd ← casUpd l a
       match b.splitOn ">" with
-      | [x, y] => do let x ← x.toNat?; let y ← y.toNat?; let rr ← parseRes r; pure (i, .cas l true x y rr)
+      | [x, y] => do let x ← x.toNat?; let y ← y.toNat?; let rr ← parseRes r; pure (i, .cas l true x y rr, upd)
       | _ => none
     else if op.startsWith "cas" then do
       let l ← locOf op "cas"
+      let upd ← casUpd l a
       match b.splitOn ">" with
-      | [x, y] => do let x ← x.toNat?; let y ← y.toNat?; let rr ← parseRes r; pure (i, .cas l false x y rr)
+      | [x, y] => do let x ← x.toNat?; let y ← y.toNat?; let rr ← parseRes r; pure (i, .cas l false x y rr, upd)
       | _ => none
-    else if op.startsWith "load" then do let l ← locOf op "load"; let v ← r.toNat?; pure (i, .load l v)
-    else if op.startsWith "fsub" then do let l ← locOf op "fsub"; let v ← b.toNat?; let o ← r.toNat?; pure (i, .fsub l v o)
-    else if op.startsWith "fadd" then do let l ← locOf op "fadd"; let v ← b.toNat?; let o ← r.toNat?; pure (i, .fadd l v o)
+    else if op.startsWith "load" then do let l ← locOf op "load"; let v ← r.toNat?; pure (i, .load l v, id)
+    else if op.startsWith "fsub" then do
+      let l ← locOf op "fsub"; let v ← b.toNat?; let o ← r.toNat?
+      let rel ← relOf a
+      pure (i, .fsub l v o, fun c => if l == 0 then { c with readRel := rel, writeRel := rel } else c)
+    else if op.startsWith "fadd" then do let l ← locOf op "fadd"; let v ← b.toNat?; let o ← r.toNat?; pure (i, .fadd l v o, id)
     else if op.startsWith "fwait" then do
       let l ← locOf op "fwait"; let v ← b.toNat?
-      if r == "park" then pure (i, .fwait l v true) else if r == "eagain" then pure (i, .fwait l v false) else none
+      if r == "park" then pure (i, .fwait l v true, id) else if r == "eagain" then pure (i, .fwait l v false, id) else none
     else if op.startsWith "fwake" then do
       let l ← locOf op "fwake"; let n ← a.toNat?
       let ws ← if b == "-" then some [] else (b.splitOn ",").mapM (·.toNat?)
-      pure (i, .fwake l n ws)
+      pure (i, .fwake l n ws, id)
     else none
   | _ => none
-
-def bit (s : String) : Option Bool := if s == "1" then some true else if s == "0" then some false else none
 
 def allStuck (s : St) : Bool :=
   (List.range s.n).all (fun i => !(enabled (s.ths i))) && (List.range s.n).any (fun i => isParked (s.ths i))
@@ -80,23 +99,24 @@ def replay (c : Cfg) : St → Nat → List (List String) → String
       | _ =>
       match parseEv ev with
       | none => s!"reject {k} unparsable-event {ev}"
-      | some (i, e) =>
+      | some (i, e, upd) =>
         let strictOk := match e with
           | .load 0 v => v == s.state
           | .load 1 v => v == s.notify
           | _ => true
         if !strictOk then s!"reject {k} load-not-latest {ev} model-state={s.state} notify={s.notify}" else
-        match step c s i e with
+        match step (upd c) s i e with
         | none => s!"reject {k} model-thread-would-not-do {ev} model-state={s.state} pc={repr (s.ths i).pc}"
         | some s' => replay c s' (k + 1) rest
 
+/-- `rw <spin budget> : prog | prog … :: event ; event …`  (orderings come with the events) -/
 def stepLine (_ : Unit) (line : String) : Unit × String :=
   let ws := Drv.words line
   match ws with
-  | "rw" :: a :: b :: c :: d :: sp :: ":" :: rest =>
-    match bit a, bit b, bit c, bit d, sp.toNat? with
-    | some a, some b, some c, some d, some sp =>
-      let cfg : Cfg := ⟨a, b, c, d, sp⟩
+  | "rw" :: sp :: ":" :: rest =>
+    match sp.toNat? with
+    | some sp =>
+      let cfg : Cfg := ⟨true, true, true, true, sp⟩
       match splitTok "::" rest with
       | [progToks, evToks] =>
         match (splitTok "|" progToks).mapM (fun ws => ws.mapM parseTxn) with
@@ -105,7 +125,7 @@ def stepLine (_ : Unit) (line : String) : Unit × String :=
           let evs := (splitTok ";" evToks).filter (· ≠ [])
           ((), replay cfg (init progs) 0 evs)
       | _ => ((), "bad-op")
-    | _, _, _, _, _ => ((), "bad-op")
+    | none => ((), "bad-op")
   | _ => ((), "bad-op")
 
 def main : IO Unit := Drv.run stepLine ()
